@@ -63,6 +63,9 @@ func (c17) Exec(seed int64, i int, tier string) Record {
 	if i >= 12000 && i%50 == 21 {
 		return c17HistoryCase(r) // class registry-history (b14_helpers.go): function names resolve against THIS call's Config
 	}
+	if i >= 12000 && i%50 == 37 {
+		return c17SameStringCase(r) // class same-string-history (b14_helpers.go): the same string parsed again gives the same answer
+	}
 	enum := c02Enum()
 	var s, gen string
 	// a slice of the bounded-exhaustive reduced grammar first, then random strings
